@@ -183,15 +183,13 @@ def dead (D : List Regex) : Bool := D.all emptyB
 
 /-- Priority exactly as `generator.generate` resolves it: walk the rules in their order, keep the first one
 and replace it only by a rule with a strictly greater `Precedence`.  `(precedence, action)` of the winner. -/
+def bestUpd (acc : Option (Int × Int)) (r : Rule) : Option (Int × Int) :=
+  match acc with
+  | none => some (r.prec, r.action)
+  | some (p, a) => if p < r.prec then some (r.prec, r.action) else some (p, a)
+
 def bestFrom : Option (Int × Int) → List Rule → List Regex → Option (Int × Int)
-  | acc, r :: rs, d :: ds =>
-    let acc' :=
-      if nullable d then
-        match acc with
-        | none => some (r.prec, r.action)
-        | some (p, a) => if p < r.prec then some (r.prec, r.action) else some (p, a)
-      else acc
-    bestFrom acc' rs ds
+  | acc, r :: rs, d :: ds => bestFrom (if nullable d then bestUpd acc r else acc) rs ds
   | acc, _, _ => acc
 
 /-- The action of the highest-priority rule whose component matches the empty word. -/
